@@ -1,5 +1,8 @@
 // Instantiation driver (parsed only, never run): remaining sequential containers.
 #include "galois/Galois.h"
+#include "galois/TwoLevelIteratorA.h"
+#include <iterator>
+#include <vector>
 #include "galois/Bag.h"
 #include "galois/FlatMap.h"
 #include "galois/LazyArray.h"
@@ -87,6 +90,23 @@ void others() {
   (void)tmh.pop();
   (void)tmh.top();
   (void)tmh.empty();
+
+  // two-level iterators in all three traversal categories (random access reaches jump_forward / jump_backward)
+  std::vector<std::vector<int>> vv;
+  auto rf = galois::make_two_level_iterator<std::forward_iterator_tag>(vv.begin(), vv.end());
+  for (auto it = rf.first; it != rf.second; ++it)
+    (void)*it;
+  auto rb = galois::make_two_level_iterator<std::bidirectional_iterator_tag>(vv.begin(), vv.end());
+  auto ib = rb.second;
+  --ib;
+  ++ib;
+  auto rr = galois::make_two_level_iterator<std::random_access_iterator_tag>(vv.begin(), vv.end());
+  auto ir = rr.first;
+  ir += 3;
+  ir -= 2;
+  --ir;
+  (void)(rr.second - rr.first);
+  (void)std::distance(rf.first, rf.second);
 }
 
 } // namespace gsa_driver
